@@ -9,10 +9,17 @@
        probes before every element) together with the result each read must give.
    Two menus explored in the same run:
      "small"  few representative items, programs up to S_ITEMS items, nesting S_DEPTH
-     "large"  many boundary values per item kind, up to L_ITEMS items, nesting L_DEPTH *)
+     "large"  many boundary values per item kind, up to L_ITEMS items, nesting L_DEPTH
+     "bounds" content-length boundaries of every kind of child (initial states, no successors):
+              [outer child] [inner child] fill(n) close [trailer] [close] for n in B_SIZES with every
+              inner / outer kind, and for the big sizes B_BIG (65535, 65536: the 2- / 3-octet DER
+              length and the 16-bit prefix limit) with a reduced choice of frames.  The demanded
+              header octets come from DER.tla (TLV) / BEFixed; a child one octet too long for its
+              prefix must make the Builder fail.  Long byte strings are printed compactly
+              (length, first and last 16 octets, the repeated middle octet). *)
 EXTENDS CryptoByte
 
-CONSTANTS MENUS, S_ITEMS, S_DEPTH, L_ITEMS, L_DEPTH
+CONSTANTS MENUS, S_ITEMS, S_DEPTH, L_ITEMS, L_DEPTH, B_SIZES, B_BIG
 
 VARIABLES menu, w, d, n
 vars == <<menu, w, d, n>>
@@ -59,10 +66,24 @@ LargeOpens == {P("open", 1, 0, <<>>, 0), P("open", 2, 0, <<>>, 0), P("open", 3, 
 
 Prims    == IF menu = "small" THEN SmallPrims ELSE LargePrims
 Opens    == IF menu = "small" THEN SmallOpens ELSE LargeOpens
-MaxItems == IF menu = "small" THEN S_ITEMS ELSE L_ITEMS
-MaxDepth == IF menu = "small" THEN S_DEPTH ELSE L_DEPTH
+MaxItems == IF menu = "small" THEN S_ITEMS ELSE IF menu = "large" THEN L_ITEMS ELSE 0
+MaxDepth == IF menu = "small" THEN S_DEPTH ELSE IF menu = "large" THEN L_DEPTH ELSE 0
 
-Init == menu \in MENUS /\ w = <<>> /\ d = 0 /\ n = 0
+\* "bounds" programs
+BFrames   == {P("open", 1, 0, <<>>, 0), P("open", 2, 0, <<>>, 0), P("open", 3, 0, <<>>, 0),
+              P("asn1", 0, 48, <<>>, 0), P("asn1", 0, 4, <<>>, 0), P("asn1", 0, 160, <<>>, 0)}
+BBigInner == {P("open", 2, 0, <<>>, 0), P("open", 3, 0, <<>>, 0), P("asn1", 0, 48, <<>>, 0), P("asn1", 0, 4, <<>>, 0)}
+BBigOuter == {P("asn1", 0, 48, <<>>, 0), P("open", 3, 0, <<>>, 0)}
+Trailers  == {<<>>, <<P("u", 1, 0, <<171>>, 0)>>}
+BProg(outer, inner, k, tr) ==
+  outer \o <<inner, P("fill", k, 7, <<>>, 0), Close>> \o tr \o (IF outer = <<>> THEN <<>> ELSE <<Close>>)
+BoundsPrograms ==
+  {BProg(o, i, k, tr) : o \in {<<>>} \cup {<<f>> : f \in BFrames}, i \in BFrames, k \in B_SIZES, tr \in Trailers}
+  \cup {BProg(o, i, k, tr) : o \in {<<>>} \cup {<<f>> : f \in BBigOuter}, i \in BBigInner, k \in B_BIG, tr \in Trailers}
+
+Init == /\ menu \in MENUS
+        /\ IF menu = "bounds" THEN w \in BoundsPrograms /\ d = 0 /\ n = 99
+           ELSE w = <<>> /\ d = 0 /\ n = 0
 Next ==
   /\ UNCHANGED menu
   /\ \/ /\ n < MaxItems /\ \E p \in Prims : w' = Append(w, p)
@@ -74,10 +95,15 @@ Spec == Init /\ [][Next]_vars
 
 Complete == d = 0 /\ w # <<>>
 
-\* compact printing: ops and observations as tuples (tools/props/derlib.py -> NDJSON)
+\* compact printing: ops and observations as tuples (tools/props/derlib.py -> NDJSON);
+\* octet strings longer than 300 as <<"big", length, first 16, last 16, middle octet>>
+\* (middle octet = the octet all octets between head and tail are equal to, else -1)
+Blob(b) == IF Len(b) <= 300 THEN b
+           ELSE <<"big", Len(b), SubSeq(b, 1, 16), SubSeq(b, Len(b) - 15, Len(b)),
+                  IF \A k \in 17..(Len(b) - 16) : b[k] = b[17] THEN b[17] ELSE -1>>
 TW(op) == <<op.op, op.w, op.tag, op.v, op.s>>
 TR(op) == <<op.op, op.w, op.tag, op.cls, op.v, op.s>>
-TO(o)  == <<o.ok, o.s, o.v, o.p, o.rest, o.depth>>
+TO(o)  == <<o.ok, o.s, Blob(o.v), o.p, o.rest, o.depth>>
 Tup(seq, F(_)) == [i \in 1..Len(seq) |-> F(seq[i])]
 
 (* one invariant per complete program: the two design-level lemmas (a failure is a
@@ -91,7 +117,7 @@ Emit == Complete =>
       o2 == RunR(<<out>>, r2, 1)
   IN /\ b.err \/ Assert(InverseObs(w, o1), <<"InverseOK fails on the specification", w>>)
      /\ b.err \/ Assert(OptionalObs(r2, o2), <<"OptionalOK fails on the specification", w>>)
-     /\ PrintT([w |-> Tup(w, TW), err |-> b.err, bytes |-> out,
+     /\ PrintT([w |-> Tup(w, TW), err |-> b.err, bytes |-> Blob(out),
                 r1 |-> Tup(r1, TR), o1 |-> Tup(o1, TO),
                 r2 |-> Tup(r2, TR), o2 |-> Tup(o2, TO)])
 =============================================================================
